@@ -29,6 +29,7 @@ def mk_graph_project(rng, depth=None):
     kind = target_kinds(rng)
     depth = depth or rng.range(1, 4)
     shape = rng.below(len(RANGE_SHAPES))
+    ordinal = rng.chance(1, 2)
     inherits = {}
     if len(locales) > 2 and rng.chance(1, 2):
         inherits[locales[2]] = locales[1]
@@ -79,7 +80,11 @@ def mk_graph_project(rng, depth=None):
         else:
             tv = "$t(" + ((ns + ":") if ns else "") + "base, {\"y\": \"Y-from-t0\"})"
         if kind == "plural":
-            pairs += [("t0_one", f"[{l}] one {{{{ count }}}} {{{{ x }}}}"), ("t0_other", f"[{l}] other {{{{ count }}}} {{{{ x }}}}")]
+            if ordinal:
+                # an ordinal plural: the rule type must survive the reference (en: 1st 2nd 3rd 4th)
+                pairs += [(f"t0_ordinal_{f}", f"[{l}] {f} {{{{ count }}}} {{{{ x }}}}") for f in ("one", "two", "few", "other")]
+            else:
+                pairs += [("t0_one", f"[{l}] one {{{{ count }}}} {{{{ x }}}}"), ("t0_other", f"[{l}] other {{{{ count }}}} {{{{ x }}}}")]
         else:
             pres = "defined"
             if l != default and rng.chance(1, 5):
